@@ -23,6 +23,8 @@ mod help;
 mod reply;
 mod state;
 mod utils;
+#[cfg(sirc_verif)]
+mod verif_seam;
 
 use clap::Parser;
 use rpassword::prompt_password;
